@@ -331,7 +331,7 @@ def session_gate(repo: Repo, rep):
     notes: list = []
     approved_lists = set()
     for n, c, rname in fix_nodes:
-        rdefs = reaching_defs(cfg, n, rname)
+        rdefs = reaching_defs(cfg, n, rname, correlate=True)
         # apply_all(L, R) calls between the recorder's definition and fix_all
         feeding = []
         for m in cfg.live:
